@@ -245,6 +245,32 @@ def run(ctx):
                     kind = "C11-same-name-two-modules" if (names[0] == names[1] and a.__module__ != b.__module__) else "pair-denotes|%s|%s" % (key, type(err).__name__ if err else infer.short(got))
                     H.violation("monkeytype.stubs:FunctionStub.render", kind, "with two classes from textually overlapping modules in one signature an annotation does not evaluate to its class",
                                 {"x": repr(a), "y": repr(List[b])}, {"error": repr(err), "evaluated": repr(got), "stub": text[-500:]})
+        # ---- generated class names: two functions of one module whose parameters share a name but receive dicts of different shapes
+        H.section("generated TypedDict classes of several functions", "two functions with a parameter of the same name traced with dicts of different shapes (and the same shape): every annotation, evaluated in the stub's "
+                  "own namespace, denotes the TypedDict inferred for *that* function; no class is defined twice", "2 pairs x 2 orders")
+        td3, td4 = make_typed_dict(required_fields={"mode": bytes}), make_typed_dict(required_fields={"path": str, "depth": int})
+        for label, ta, tb in (("different-shapes", td4, td3), ("same-shape", td4, td4)):
+            for order in (0, 1):
+                trs = [CallTrace(target.f, {"x": ta}, int), CallTrace(target.h, {"x": tb, "y": int}, int)]
+                if order:
+                    trs.reverse()
+                key = "td-classes|%s|order=%d" % (label, order)
+                try:
+                    text = build_module_stubs_from_traces(trs, 10)["target11"].render()
+                    anns, classes = evaluate_stub(text, target)
+                    defs = [n.name for n in ast.walk(ast.parse(text)) if isinstance(n, ast.ClassDef)]
+                    okc = td_equiv(anns.get("f", {}).get("x"), ta, classes) and td_equiv(anns.get("h", {}).get("x"), tb, classes)
+                    dup = sorted({d for d in defs if defs.count(d) > 1})
+                    err = None
+                except Exception as e:   # noqa
+                    okc, dup, err = False, [], e
+                    text = locals().get("text", "")
+                if okc and not (dup and label == "different-shapes"):
+                    H.ok(key, sample={"case": label, "order": order, "stub_tail": text[-160:]})
+                else:
+                    H.violation("monkeytype.stubs:FunctionDefinition.from_callable_and_traced_types", "C11-typeddict-class-name-collision|%s" % label if (dup and err is None) else "td-classes|%s|%s" % (key, type(err).__name__ if err else "denotes"),
+                                "generated TypedDict classes of two functions get the same name: the class is defined twice and both annotations denote the last definition",
+                                {"case": label, "order": order, "f.x": repr(ta), "h.x": repr(tb)}, {"duplicate_classes": dup, "error": repr(err), "stub": text[-700:]})
     finally:
         sys.path.remove(tmp)
         for n in ("zz11", "pkg11.zz11", "pkg11", "foo11", "barfoo11", "target11", "mytyping11"):
